@@ -14,12 +14,17 @@ extern "C" int h_str(void) {
   uint8_t* buf = (uint8_t*)malloc(n + 64);
   static uint8_t orig[256], dec[256];
   verif_symbolic(buf, n, "lit");
-  size_t nbs = 0;
+  // family "at most maxbs backslashes": their positions p1 <= p2 are picked first (the engine forks over them, n = none) and every
+  // other byte is constrained to be no backslash; byte values stay symbolic everywhere (also at p1/p2, which may hold any byte)
+  size_t p1 = n, p2 = n;
+  if (maxbs <= n) {
+    if (maxbs >= 1) p1 = verif_concrete(verif_range(plain, n, "bs1"));
+    if (maxbs >= 2) p2 = verif_concrete(verif_range(p1, n, "bs2"));
+  }
   for (size_t i = 0; i < n; i++) {
     if (i < plain) verif_assume(buf[i] >= 0x20 && buf[i] != '"' && buf[i] != '\\');
-    else nbs += (buf[i] == '\\');
+    else if (maxbs <= n && i != p1 && i != p2) verif_assume(buf[i] != '\\');
   }
-  if (maxbs <= n) verif_assume(nbs <= maxbs);
   buf[n] = 'x'; buf[n + 1] = '"'; buf[n + 2] = 'x';
   memcpy(orig, buf, n);
   // reference
